@@ -106,7 +106,18 @@ func (g *c20gen) expr(d int) gen.Expr {
 	}
 	switch r.Intn(10) {
 	case 0:
-		ops := []string{"+", "-", "*", "~", "==", "and", "or", "in", "<"}
+		// (operators of several words may have their words on different lines)
+		ops := []string{"+", "-", "*", "~", "==", "and", "or", "in", "<", "not in", "starts with", "ends with", "matches", "b-and", "b-or", "b-xor", "//", "**", "..", "!=", ">="}
+		if r.Intn(5) == 0 {
+			t := &gen.ETest{X: g.expr(d - 1), Not: r.Intn(2) == 0, Test: []string{"pos", "divisible by", "same as", "empty"}[r.Intn(4)]}
+			if strings.Contains(t.Test, " ") {
+				t.Args = []gen.Expr{g.expr(0)}
+				return t
+			}
+			// (a test name may have two words, so that a one-word test followed by the 'if' of a for tag reads as
+			// something else: in parentheses it ends where it ends)
+			return &gen.EGroup{X: t}
+		}
 		return &gen.EBin{Op: ops[r.Intn(len(ops))], L: g.expr(d - 1), R: g.expr(d - 1)}
 	case 1:
 		return &gen.EUn{Op: []string{"not", "-"}[r.Intn(2)], X: g.expr(d - 1)}
@@ -121,6 +132,16 @@ func (g *c20gen) expr(d int) gen.Expr {
 	case 6:
 		return &gen.EGroup{X: g.expr(d - 1)}
 	case 7:
+		switch r.Intn(5) {
+		case 0: // an index after a dot, and a further access behind it
+			return &gen.EAttr{X: &gen.EAttr{X: &gen.EName{Name: "v" + g.u()}, Key: &gen.ENum{Text: strconv.Itoa(r.Intn(30))}, Dot: true}, Key: &gen.EStr{S: "k" + g.u()}, Dot: true}
+		case 1:
+			return &gen.EAttr{X: &gen.EName{Name: "v" + g.u()}, Key: &gen.ENum{Text: strconv.Itoa(r.Intn(30))}, Dot: true}
+		case 2:
+			return &gen.EMethod{X: &gen.EName{Name: "v" + g.u()}, Name: "m" + g.u(), Args: []gen.Expr{g.expr(0)}}
+		case 3:
+			return &gen.EGroup{X: &gen.EHash{Keys: []gen.Expr{&gen.EName{Name: "hk" + g.u()}, &gen.EStr{S: "hs" + g.u()}}, Vals: []gen.Expr{g.expr(0), g.expr(d - 1)}}}
+		}
 		return &gen.EAttr{X: &gen.EName{Name: "v" + g.u()}, Key: g.expr(0), Dot: false}
 	case 8:
 		if r.Intn(2) == 0 {
@@ -669,6 +690,9 @@ func (p *c20) runPositions(res *fw.Result, i int) {
 			if a, ok := byID["string|"+x.Text]; ok {
 				// the opening quote or the first content byte
 				check("string", x, a, anchorPos{a.line, a.col + 1})
+			} else if a, ok := byID["attr|"+x.Text]; ok {
+				// the name or index after a dot is a literal of the tree as well: located at its own first byte
+				check("attr", x, a)
 			}
 		}
 		for _, c := range n.All() {
@@ -809,7 +833,7 @@ func (p *c20) runNamed(res *fw.Result, j int) {
 }
 
 func (p *c20) Rule() string {
-	return fmt.Sprintf("four workloads. (a) positions: seeded templates in which every name, number, string and text run is unique, spelled with line breaks everywhere (LF, CRLF, blank lines inside tags; newlines and bytes that are not valid UTF-8 inside text; newlines inside strings, interpolated strings (before and after the interpolation), comments, verbatim bodies; trim markers; both quote kinds; a third of the templates start with a byte order mark, two of them, a NUL, a lone CR, NBSP or a zero-width space as ordinary text); every TextNode, PrintNode, tag node (if/elseif, for, set, block, filter, macro, embed and its blocks, include, import, from, use, do, extends), NameExpr, NumberExpr and StringExpr of the parsed tree must report the (1-based line, 0-based byte column) of its anchor as recorded by the speller (unique content is looked up directly, tag nodes must sit on an anchor of their kind; a string may report its quote or its first content byte). (b) truncation: EVERY byte offset of every injection template and of generated templates: when a reference scanner says the cut is inside a delimiter pair or an open if/for/block/set/filter/macro/embed/verbatim body, parsing the prefix must fail. (c) injection: for each of the 41 tag/expression templates at 3 placements: an illegal character '@' at EVERY token boundary, a surplus literal before EVERY closing delimiter, a stray ')' or ']' at EVERY token boundary where no bracket is open, an unknown tag at EVERY statement position; the source must be rejected (for the stray bracket: if it is rejected) with the error located exactly at the injected token. (d) a broken template (%d kinds of error - every tag with a missing or wrong part, every kind of malformed expression -, 7 names incl. two of 290 bytes that differ only at the end) loaded directly and through include, extends, import, embed, use, from and a nested include in a loop: the error must identify the template by name. Non-trivial (positions) = an anchor on a line >1; the enumerated workloads are distinct by construction.", len(c20Broken))
+	return fmt.Sprintf("four workloads. (a) positions: seeded templates in which every name, number, string and text run is unique, spelled with line breaks everywhere (LF, CRLF, blank lines inside tags; newlines and bytes that are not valid UTF-8 inside text; newlines inside strings, interpolated strings (before and after the interpolation), comments, verbatim bodies; trim markers; both quote kinds; a third of the templates start with a byte order mark, two of them, a NUL, a lone CR, NBSP or a zero-width space as ordinary text); every TextNode, PrintNode, tag node (if/elseif, for, set, block, filter, macro, embed and its blocks, include, import, from, use, do, extends), NameExpr, NumberExpr and StringExpr of the parsed tree must report the (1-based line, 0-based byte column) of its anchor as recorded by the speller (unique content is looked up directly, tag nodes must sit on an anchor of their kind; a string may report its quote or its first content byte; the name or index after a dot is located at its own first byte). (b) truncation: EVERY byte offset of every injection template and of generated templates: when a reference scanner says the cut is inside a delimiter pair or an open if/for/block/set/filter/macro/embed/verbatim body, parsing the prefix must fail. (c) injection: for each of the 41 tag/expression templates at 3 placements: an illegal character '@' at EVERY token boundary, a surplus literal before EVERY closing delimiter, a stray ')' or ']' at EVERY token boundary where no bracket is open, an unknown tag at EVERY statement position; the source must be rejected (for the stray bracket: if it is rejected) with the error located exactly at the injected token. (d) a broken template (%d kinds of error - every tag with a missing or wrong part, every kind of malformed expression -, 7 names incl. two of 290 bytes that differ only at the end) loaded directly and through include, extends, import, embed, use, from and a nested include in a loop: the error must identify the template by name. Non-trivial (positions) = an anchor on a line >1; the enumerated workloads are distinct by construction.", len(c20Broken))
 }
 
 func (p *c20) Assumptions() []string {
